@@ -15,6 +15,12 @@
 // compact, compact merged from two files (self-contained halves; second half
 // built as an overlay index against the first).
 //
+// Part C (engine E1, tokens.go): the token-boundary family - worlds whose
+// searchable keys sort before, between and after the tokens every index has
+// ("*", "a2:...", "s2:..."), so that keyed / tagged / all queries match the
+// first, a middle and the last token of an index, in single files and in each
+// file of merged worlds.
+//
 // Menu: worldkit.QueryMenu over all / tagged(#k=v) / keyed(#k) / keyed(@k)
 // atoms (present and absent keys and values), typed(point|path|area|relation,.),
 // and / or of arity 1-2; depth <= 2 (quick), <= 3 over a pruned atom set
@@ -516,7 +522,9 @@ func main() {
 	kit.Main(&kit.Check{
 		ID: "C03", Level: "model_checking",
 		Rule: "part A: one representative state per distinct (mutable index contents, overlay ID set, reference state) of the C12 state graphs (BFS over AddFeature/AddTag/RemoveTag histories of a MutableOverlayWorld, dedup by private-state key), plus successors of transitions whose only fault is a wrong search result, x every query of the menu; " +
-			"part B: every choice of one variant per worldkit menu slot whose features are all valid as given x ID scheme x 11 static builder configurations x every query of the menu. Non-trivial = the world has at least one feature; a query evaluation is counted as non-vacuous when its expected result is non-empty (counter). " +
+			"part B: every choice of one variant per worldkit menu slot whose features are all valid as given x ID scheme x 11 static builder configurations x every query of the menu; " +
+			"part C (token positions): every assignment, to a fixed set of self-contained carrier features, of absent / untagged / one tag of an alphabet whose searchable keys sort before every index token ('#!a', '@!0'), between '*' and the a2: cell tokens ('#a0'), between the a2: and s2: cell tokens ('#m') and after every token ('#z', '@zz'), '#' keys with values v < w - so that the tokens of a key (1 or 2 values) are the first, a middle and the last tokens of an index, counted per position class against the documented tokenisation (counters token-positions[...]) - listed simplest-first (features, tagged features, distinct keys), x in-memory builders and compact single-file / every two-file split x a menu of keyed / tagged / all atoms (present keys and values, and absent ones before, between and after them) alone, typed, and in and/or. " +
+			"Non-trivial = the world has at least one feature; a query evaluation is counted as non-vacuous when its expected result is non-empty (counter). " +
 			"Oracle: RQ.Eval over the reference tag map; result strictly increasing in FeatureID.Less and equal to the filtered universe.",
 		Assumptions: []string{
 			"tagged only over '#' keys, keyed over '#' and '@' keys (only those are indexed)",
@@ -525,7 +533,7 @@ func main() {
 			"part A inherits the C12 abstractions: AVL shapes and the drifting treeList.length (EstimateLength) are not part of the state key; states past a transition that violates C12 are not explored",
 			"compact merged from two files: the files hold disjoint IDs, or identical copies of the same features",
 		},
-		QuickDeadline: 300e9, ThoroughDeadline: 30 * 60e9, Chunk: 8,
+		QuickDeadline: 1500e9, ThoroughDeadline: 30 * 60e9, Chunk: 8,
 		Build: func(tier string) (kit.Space, string) {
 			g := mk.NewGraph(tier)
 			// quick: depth <= 2 at every representative state. thorough: the same,
@@ -569,12 +577,16 @@ func main() {
 			worldsC := tokenWorlds(tier)
 			nC := int64(len(worldsC))
 			menuC := tokenMenu()
-			bound += fmt.Sprintf("; part C (token positions): every choice, for each of %d carrier features (%s), of absent / no searchable tag / one tag of {%s} x {%s} or {%s} = %d worlds with at least one feature (ID scheme rotating over 3) x 6 in-memory builder configurations + compact single file, merged from every ordered split of the features into two non-empty files (second file self-contained, and built as an overlay index on the first) and the same features in both files, x %d queries (%d atoms incl. absent keys/values before, between and after the present tokens; typed x 4; unary and/or; binary and/or with %d partner atoms in both operand orders)",
-				len(tokenCarriers(tier)), strings.Join(tokenCarrierNames[:len(tokenCarriers(tier))], ", "), strings.Join(tokenKeys, " "), strings.Join(tokenValues, " "), strings.Join(tokenFlagKeys, " "), nC, len(menuC), len(tokenAtoms()), len(tokenPartners()))
+			carriersC := "each of 3 carrier features (point, lat/lng path, memberless relation) is absent / has no searchable tag / has one tag of {" + strings.Join(tokenKeys, " ") + "} x {" + strings.Join(tokenValues, " ") + "} or {" + strings.Join(tokenFlagKeys, " ") + "}"
+			if tier == "thorough" {
+				carriersC += "; a 4th carrier (polygon area) is absent or has one of #!a=v #a0=w #m=v #z=w @zz"
+			}
+			bound += fmt.Sprintf("; part C (token positions): %s = %d worlds with at least one feature (ID scheme = sum of the choices of all carriers but the first, mod 3) x 6 in-memory builder configurations + compact single file, merged from every ordered split of the features into two non-empty self-contained files, first feature + the others as an overlay index built on it, and the same features in both files, x %d queries (%d atoms incl. absent keys/values before, between and after the present tokens; typed x 4; unary and/or; binary and/or with %d partner atoms in both operand orders)",
+				carriersC, nC, len(menuC), len(tokenAtoms()), len(tokenPartners()))
 			return kit.FuncSpace{N: nA + nB + nC, F: func(i int64) kit.Result {
 				if i >= nA+nB {
 					ci := i - nA - nB
-					return runTokens(tier, worldsC[ci], wk.Schemes[ci%3], menuC, ci%97 == 0)
+					return runTokens(tier, worldsC[ci], menuC, ci%97 == 0)
 				}
 				if i < nA {
 					if deepState != nil && g.Layers[cases[i].layer].Depth == 0 {
